@@ -551,7 +551,8 @@ theorem Inv.advanceLocal {s : State} (h : Inv s) : Inv (advanceLocal s) := by
   · exact h1 k hk
   · exact h.conns k (List.mem_append_right _ hk)
 
-theorem CI.fresh (U : List Nat) (nx id peer : Nat) : CI U nx ({ id := id, peer := peer } : Conn) :=
+theorem CI.fresh (U : List Nat) (nx id peer t : Nat) :
+    CI U nx ({ id := id, peer := peer, estAt := t } : Conn) :=
   ⟨by simp [Conn.seq, Cmd.notes], by simp [Conn.seq, Cmd.notes], by simp [Conn.seq, Cmd.notes],
     by simp, trivial⟩
 
@@ -574,7 +575,7 @@ theorem Inv.reportPending {s : State} (h : Inv s) (m : PendMsg) (bad : Bool) :
     rcases List.mem_append.1 hk with hk | hk
     · rcases List.mem_append.1 hk with hk | hk
       · exact h.conns k (List.mem_append_left _ hk)
-      · simp only [List.mem_singleton] at hk; subst hk; exact CI.fresh _ _ _ _
+      · simp only [List.mem_singleton] at hk; subst hk; exact CI.fresh _ _ _ _ _
     · exact h.conns k (List.mem_append_right _ hk)
   · exact h.same rfl rfl rfl rfl rfl h.conns
 
@@ -586,10 +587,20 @@ theorem Inv.poolPoll {s : State} (h : Inv s) (pick : Option Nat) : Inv (poolPoll
     · exact h.reportPending _ _
     · exact h.advanceLocal
 
+theorem Inv.transportPoll {s : State} (h : Inv s) : Inv (transportPoll s).1 := by
+  unfold C07.transportPoll
+  split
+  · exact h.same rfl rfl rfl rfl rfl h.conns
+  · exact h
+
 theorem Inv.poolPart {s : State} (h : Inv s) (pick : Option Nat) : Inv (poolPart s pick).1 := by
   unfold C07.poolPart
   have := h.poolPoll pick
-  split <;> simp_all
+  split
+  · simp_all
+  · rename_i s' heq
+    rw [heq] at this
+    exact Inv.transportPoll this
 
 theorem Inv.pollLoop (fuel : Nat) : ∀ {s : State}, Inv s → ∀ pick, Inv (pollLoop fuel s pick).1 := by
   induction fuel with
@@ -618,6 +629,13 @@ theorem Inv.pollLoop (fuel : Nat) : ∀ {s : State}, Inv s → ∀ pick, Inv (po
 theorem Inv.step {s : State} (h : Inv s) (op : Op) : Inv (step s op).1 := by
   cases op with
   | connect p => exact h.same rfl rfl rfl rfl rfl h.conns
+  | dial p =>
+    simp only [C07.step]
+    split
+    · exact h.same rfl rfl rfl rfl rfl h.conns
+    · exact h.same rfl rfl rfl rfl rfl h.conns
+  | resolve c p => exact h.same rfl rfl rfl rfl rfl h.conns
+  | incoming => exact h.same rfl rfl rfl rfl rfl h.conns
   | close c => exact h.updConn c _ (fun k _ hk => hk.startClose _)
   | disconnect p => exact h.disconnect p
   | rclose c =>
